@@ -368,7 +368,9 @@ def run_case(case):
     nwrites = ref.errtext().count('\n') + 2
     for k in range(1, min(nwrites, 12) + 1):
         for err in (E.EPIPE, E.ENOSPC):
-            plans.append(('stderr', {'stderr_fail_at': k, 'stderr_errno': err},
+            plans.append(('stderr', {'stderr_fail_at': k, 'stderr_errno': err,
+                                     # (EPIPE from a real pipe without reader)
+                                     'stderr_real_pipe': err == E.EPIPE},
                           'stderr write #%d %s' % (k, errno.errorcode[err])))
     seen_mech = {}
     for kind, extra, label in plans:
